@@ -118,6 +118,21 @@ def run_case(c, rnd):
         return access(res)
     rec["mcindex"] = outcome(lambda: mc(lambda res: res[0]))
     rec["mciter"] = outcome(lambda: mc(lambda res: next(iter(res))))
+
+    # histories of accesses to ONE result object: every access must behave like the first
+    def again(first, second):
+        def access(res):
+            try:
+                first(res)
+            except BaseException:  # noqa
+                pass
+            return second(res)
+        return access
+    idx, it = (lambda res: res[0]), (lambda res: next(iter(res)))
+    rec["mcindex2"] = outcome(lambda: mc(again(idx, idx)))
+    rec["mciter2"] = outcome(lambda: mc(again(it, it)))
+    rec["mcidxiter"] = outcome(lambda: mc(again(it, idx)))
+    rec["mclen"] = outcome(lambda: mc(lambda res: len(res)))
     return rec
 
 
